@@ -1120,10 +1120,13 @@ class NodeBase(ABC):
             if all(f(node) for f in filter):
                 yield node
 
-    @altered_default_filters()
     def _iterate_preceding(self) -> Iterator[NodeBase]:
+        # the default filters are unset for each navigation step, but never while
+        # this generator is suspended at a yield
         def iter_children(node: NodeBase) -> Iterator[NodeBase]:
-            for child_node in reversed(tuple(node.iterate_children())):
+            with altered_default_filters():
+                child_nodes = tuple(node.iterate_children())
+            for child_node in reversed(child_nodes):
                 yield from iter_children(child_node)
                 yield child_node
 
@@ -1132,7 +1135,8 @@ class NodeBase(ABC):
         last_yield: NodeBase = pointer
 
         while True:
-            pointer = pointer.fetch_preceding_sibling()
+            with altered_default_filters():
+                pointer = pointer.fetch_preceding_sibling()
 
             if pointer is not None:
                 yield from iter_children(pointer)
